@@ -56,7 +56,8 @@ def scenarios(draw):
         script = [item for item in script if not any("settings" in a and int(a["settings"]["3"]) < 2 for a in item["do"])]
     return {"kind": kind, "callers": callers, "plans": plans, "mcs0": mcs0, "script": script, "max_connections": draw(st.sampled_from([1, 1, 2])),
             "choices": draw(st.lists(st.integers(0, 15), min_size=10, max_size=160)), "segs": draw(st.lists(st.sampled_from([0, 0, 1, 5, 9, 13, 100]), max_size=5)),
-            "runtime": draw(st.sampled_from(["asyncio", "asyncio", "trio"]))}
+            "runtime": draw(st.sampled_from(["asyncio", "asyncio", "trio"])),
+            "bursts": draw(st.sampled_from([[], [], [1], [0, 1], [2, 0, 1], [0, 0, 3, 1]]))}
 
 
 def run(sc):
@@ -83,7 +84,8 @@ def run(sc):
 
     from ..trio_run import make_run
 
-    r = make_run(sc.get("runtime"))(world, pool_cfg, callers, choices=sc["choices"], segs=sc["segs"], epilogue=epilogue, step_limit=8000)
+    r = make_run(sc.get("runtime"))(world, pool_cfg, callers, choices=sc["choices"], segs=sc["segs"], epilogue=epilogue, step_limit=8000,
+                                    bursts=sc.get("bursts", ()))
     r.final_repr = None
     r.run()
     return r, world, callers
@@ -187,11 +189,35 @@ RULE = ("2-8 concurrent single-request callers (GET / POST with a 2-chunk body; 
         "cut at drawn sizes. Non-trivial: >= 3 streams in flight at once and a SETTINGS change, a reset sibling or an abandoning sibling; distinct = "
         "distinct scenario.")
 
+@st.composite
+def pool_history_scenarios(draw):
+    """Undisturbed HTTP/2 histories through the pool (several origins, small limits, keep-alive limit 0/1): connections are evicted and closed while
+    other requests are being set up on them."""
+    from .conc import scenarios as conc_scenarios
+
+    sc = draw(conc_scenarios(kinds=["direct-h2", "direct-h2", "prior-h2", "tunnel-h2", "socks-auth-tls-h2"], max_callers=5, limits=(1, 1, 2)))
+    sc["faults"], sc["cancel"], sc["server_closes"] = [], None, 0
+    sc.pop("h2_script", None)
+    if not sc.get("bursts"):
+        sc["bursts"] = draw(st.sampled_from([[1], [0, 1], [2, 0, 1], [1, 1, 0]]))
+    return sc
+
+
+def execute_pool_history(sc):
+    from .conc import make_execute as conc_execute
+
+    return conc_execute("C12")(sc)
+
+
 PROP = Prop(
     P, level="exploration", rule=RULE,
-    layers=[Layer("multiplexing", stall_is_violation=True, strategy=scenarios, execute=execute, budget={"quick": 2500, "thorough": 120000})],
+    layers=[Layer("multiplexing", stall_is_violation=True, strategy=scenarios, execute=execute, budget={"quick": 2500, "thorough": 120000}),
+            Layer("pool-histories", strategy=pool_history_scenarios, execute=execute_pool_history, budget={"quick": 1600, "thorough": 60000}),
+            __import__("vf.props.real", fromlist=["concurrent_layer"]).concurrent_layer("C12", {"quick": 320, "thorough": 12000})],
     assumptions=["the peer's own stream accounting (vf/peers/h2.py) is the reference for the bound; the limit in force is the last value the client has ACKed",
                  "MAX_CONCURRENT_STREAMS=0 is not generated (grey zone: the client cannot both obey it and make progress)",
-                 "asyncio driver; interleavings sampled"],
+                 "asyncio and trio drivers; interleavings sampled (choice lists, two-actions-at-once bursts)",
+                 "layer pool-histories: undisturbed HTTP/2 histories through the pool with evictions / keep-alive limit 0: a request must not fail because a sibling "
+                 "completed or another origin needed the slot while it was being set up"],
     explanation="Schedule and frame-interleaving space sampled.",
 )
